@@ -14,7 +14,7 @@ RULE = ("exception codes 0..255 x {read, write, write-multi} x {udp-rtu, tcp} x 
         "(transport, keep-alive, command kind, code, j, delay, entry) tuples")
 ASSUMPTIONS = ["reason texts are the standard Modbus exception names (table copied from the specification into refcodec)",
                "virtual clock: 'at once' means zero virtual time between delivery of the exception frame and the return"]
-MUST = ["capability_probe_other_reasons", "rejected_after_a_failed_request_on_the_same_object", "same_request_rejected_twice_in_a_row", "compound_call_write_rejected", "public_entry_es", "poll_blocks_rejected_in_turn", "family_level_rejection", "rejected_after_a_request_served_on_retransmission", "public_entry_dt", "named_setting_write", "two_tcp_objects_overlapping", "command_for_another_unit", "tcp_exception_with_wrong_mbap_length", "second_request_rejected", "rejected_after_lone_fragment", "rejected_udp", "rejected_tcp", "after_drops", "delayed_exception", "unknown_code", "public_entry"]
+MUST = ["exception_after_begun_answer", "capability_probe_other_reasons", "rejected_after_a_failed_request_on_the_same_object", "same_request_rejected_twice_in_a_row", "compound_call_write_rejected", "public_entry_es", "poll_blocks_rejected_in_turn", "family_level_rejection", "rejected_after_a_request_served_on_retransmission", "public_entry_dt", "named_setting_write", "two_tcp_objects_overlapping", "command_for_another_unit", "tcp_exception_with_wrong_mbap_length", "second_request_rejected", "rejected_after_lone_fragment", "rejected_udp", "rejected_tcp", "after_drops", "delayed_exception", "unknown_code", "public_entry"]
 EXHAUSTIVE = {"quick": True, "thorough": True}
 EPS = 1e-6
 
@@ -104,6 +104,17 @@ def scenario_fragment_first(transport, ka, T, R, code, k):
     return sc
 
 
+def scenario_fragment_then_exception(transport, ka, T, R, code, count, k, d):
+    """the answer to a read of `count` registers begins (k bytes arrive), then the inverter sends an exception frame instead of the rest (d later,
+    within the same attempt): the exception frame is an answer of its own and rejects the request when it arrives. (Left out: an exception frame
+    exactly as long as the missing rest - the continuation rule of C07 takes a piece of exactly that length as the rest, by design.)"""
+    sc = scenario(transport, ka, T, R, "read", code, 0, 0.0, "protocol")
+    sc["tasks"] = [{"start": 0.0, "steps": [["read", 400, count]]}]
+    sc["script"] = [["fragexc", k, code, d]]
+    sc["frag_exc"] = [count, k, d]
+    return sc
+
+
 def scenario_mbap(ka, T, R, kind, code, j, mlen):
     """Modbus/TCP: the exception frame carries a wrong MBAP length (the library ignores that field on purpose - GoodWe firmware
     copies the request's length into answers); it is still an exception answer and must reject at once."""
@@ -128,6 +139,8 @@ def check_run(sc, run, part: Part):
         ctx += " as the second request on the same object"
     if sc.get("mbap"):
         ctx += f" with MBAP length field {sc['mbap']} instead of 3"
+    if sc.get("frag_exc"):
+        ctx += f" following the first {sc['frag_exc'][1]} bytes of a regular answer to a read of {sc['frag_exc'][0]} registers by {sc['frag_exc'][2]} s"
     if sc.get("frag_first"):
         ctx += f" after a lone {sc['frag_first']}-byte fragment answered transmission 1"
     if rec["outcome"] != "RequestRejectedException":
@@ -173,6 +186,8 @@ def check_run(sc, run, part: Part):
             part.count("rejected_after_a_request_served_on_retransmission")
         if sc.get("frag_first"):
             part.count("rejected_after_lone_fragment")
+        if sc.get("frag_exc"):
+            part.count("exception_after_begun_answer")
         if sc.get("mbap"):
             part.count("tcp_exception_with_wrong_mbap_length")
     return out
@@ -182,7 +197,7 @@ def run_case(sc, part):
     run = engine.run_scenario(sc, quiesce=False)
     part.evaluations += 1
     vs = check_run(sc, run, part)
-    part.see(repr((sc["transport"], sc["keep_alive"], sc["kind"], sc["code"], sc["j"], sc["delay"], sc["entry"], sc.get("second"), sc.get("frag_first"), sc.get("mbap"))))
+    part.see(repr((sc["transport"], sc["keep_alive"], sc["kind"], sc["code"], sc["j"], sc["delay"], sc["entry"], sc.get("second"), sc.get("frag_first"), sc.get("mbap"), sc.get("frag_exc"))))
     for key, msg in vs:
         part.violate(key, msg, {"scenario": sc, "calls": run.calls, "events": engine.jsonable_events(run.events, 60)})
     if part.evaluations % 701 == 3:
@@ -475,6 +490,14 @@ def run_shard(spec):
                     # (read of 3 registers: RTU answer = 13 bytes, Modbus/TCP answer = 15 bytes; k stays below the full frame)
                     for k in range(5 if spec["transport"] == "udp" else 9, 13 if spec["transport"] == "udp" else 15):
                         run_case(scenario_fragment_first(spec["transport"], spec["ka"], T, R, code, k), part)
+                    udp_ = spec["transport"] == "udp"
+                    for count in (3, 10, 33, 125):
+                        full_, exc_ = (2 * count + (7 if udp_ else 9)), (7 if udp_ else 9)
+                        for k in sorted({5 if udp_ else 9, 6 if udp_ else 10, full_ // 2, full_ - exc_ - 1, full_ - exc_ + 1, full_ - 2}):
+                            if not (5 if udp_ else 9) <= k < full_ or full_ - k == exc_:
+                                continue
+                            for d in ((0.0, 0.3 * T) if udp_ else (0.3 * T,)):       # (one TCP segment could carry both pieces if sent in the same instant)
+                                run_case(scenario_fragment_then_exception(spec["transport"], spec["ka"], T, R, code, count, k, d), part)
     return part
 
 
